@@ -81,6 +81,21 @@ def tyOf : Nat → Val → Option Ty
       pure (.dict k t)
     | .cons (.sym "ch") (.cons t .nil) => (tyOf fuel t).map .chain
     | .sym "hl" => some .highload
+    | .cons (.sym "bt") (.cons t .nil) => (tyOf fuel t).map .binTree
+    | .cons (.sym "dae") (.cons k (.cons t (.cons x .nil))) => do
+      let k ← tyOf fuel k
+      let t ← tyOf fuel t
+      let x ← tyOf fuel x
+      pure (.dictAugE k t x)
+    | .cons (.sym "da") (.cons k (.cons t (.cons x .nil))) => do
+      let k ← tyOf fuel k
+      let t ← tyOf fuel t
+      let x ← tyOf fuel x
+      pure (.dictAug k t x)
+    | .cons (.sym "cu") (.cons (.sym id) (.cons body (.cons aux .nil))) => do
+      let body ← tyOf fuel body
+      let aux ← tyOf fuel aux
+      pure (.custom id body aux)
     | .cons (.sym "ee") (.cons (.sym id) .nil) => some (.encErr id)
     | .cons (.sym "o") (.cons (.sym id) .nil) => some (.opaque id)
     | _ => none
